@@ -514,6 +514,10 @@ func (in *Interp) forIn(s *gen.Node) error {
 			if !orderInsensitive(s.Body, s.X.Name) {
 				return ErrMapOrder
 			}
+			if _, outer := in.lookupVar(s.X.Name); outer {
+				// the loop variable updates an enclosing variable: its final value depends on the order
+				return ErrMapOrder
+			}
 			in.MapLoop = true
 		}
 		for _, k := range keys {
